@@ -60,6 +60,7 @@ struct FnVisitor<'a> {
     macros: Vec<Value>,
     calls: Vec<Value>,
     ifs: Vec<Value>,
+    matches: Vec<Value>,
     all_stmts: Vec<Value>,
 }
 
@@ -140,6 +141,20 @@ impl<'a, 'ast> Visit<'ast> for FnVisitor<'a> {
             "receiver": self.lm.span(n.receiver.span()), "span": self.lm.span(n.span())}));
         visit::visit_expr_method_call(self, n);
     }
+    fn visit_expr_match(&mut self, n: &'ast syn::ExprMatch) {
+        let arms: Vec<Value> = n.arms.iter().map(|a| {
+            let is_wild = matches!(a.pat, syn::Pat::Wild(_));
+            json!({"span": self.lm.span(a.span()), "pat": self.lm.span(a.pat.span()),
+                   "guard": a.guard.as_ref().map(|(_, g)| self.lm.span(g.span())),
+                   "if_span": a.guard.as_ref().map(|(i, _)| self.lm.span(i.span())),
+                   "arrow": self.lm.span(a.fat_arrow_token.span()),
+                   "body": self.lm.span(a.body.span()),
+                   "body_is_block": matches!(*a.body, syn::Expr::Block(_)),
+                   "wild": is_wild})
+        }).collect();
+        self.matches.push(json!({"span": self.lm.span(n.span()), "arms": arms}));
+        visit::visit_expr_match(self, n);
+    }
     fn visit_expr_if(&mut self, n: &'ast syn::ExprIf) {
         self.ifs.push(json!({"span": self.lm.span(n.span()), "cond": self.lm.span(n.cond.span())}));
         visit::visit_expr_if(self, n);
@@ -199,7 +214,7 @@ fn sig_json(lm: &LineMap, sig: &syn::Signature) -> Value {
 }
 
 fn fn_json(lm: &LineMap, path: &str, attrs: &[syn::Attribute], vis_span: Option<Span>, sig: &syn::Signature, block: &syn::Block, whole: Span) -> Value {
-    let mut v = FnVisitor { lm, loops: vec![], closures: vec![], macros: vec![], calls: vec![], ifs: vec![], all_stmts: vec![] };
+    let mut v = FnVisitor { lm, loops: vec![], closures: vec![], macros: vec![], calls: vec![], ifs: vec![], matches: vec![], all_stmts: vec![] };
     v.visit_block(block);
     let stmts: Vec<Value> = block
         .stmts
@@ -222,7 +237,7 @@ fn fn_json(lm: &LineMap, path: &str, attrs: &[syn::Attribute], vis_span: Option<
            "start_no_attrs": start_no_attrs,
            "attrs": attrs_json(lm, attrs), "sig": sig_json(lm, sig),
            "block": lm.span(block.span()), "stmts": stmts,
-           "loops": v.loops, "closures": v.closures, "macros": v.macros, "calls": v.calls, "ifs": v.ifs, "all_stmts": v.all_stmts})
+           "loops": v.loops, "closures": v.closures, "macros": v.macros, "calls": v.calls, "ifs": v.ifs, "matches": v.matches, "all_stmts": v.all_stmts})
 }
 
 fn fields_json(lm: &LineMap, fields: &syn::Fields) -> Value {
